@@ -26,15 +26,22 @@ ORACLE_PREMISES = [
     'function string -> string (theorems hold for every table; the run passes its restriction to the values of the case)',
     'H: Python str hash is a function of the string (theorems hold for every H); the run compares hash '
     'equality with equality of the hashed strings, i.e. assumes no collision among the <= 200 keys of a run',
-    'pydicom Dataset attribute assignment / getattr / hasattr / deepcopy and dcmwrite+dcmread return the str '
-    'that was stored (no backslash, no trailing blank in the alphabet)',
+    'pydicom Dataset attribute assignment / getattr / hasattr / deepcopy return the str that was stored (no backslash in '
+    'the alphabet); dcmwrite+dcmread return every attribute without its trailing blanks (modelled: rstrip; NUL padding and '
+    'backslash = multi-value are not modelled)',
 ]
 MODELLED = ('sr/coding.py CodedConcept.__init__ (attribute selection, meaning guard), value / meaning / '
-            'scheme_designator / scheme_version, __eq__, __ne__, __hash__, from_dataset (type check, exactly-one '
-            'check, required attributes, copy vs alias incl. class change of the original), from_code; pydicom '
-            'Code.__eq__/__ne__/__hash__ incl. SRT->SCT normalisation; set/dict lookup as hash-then-eq')
-NOT_EXECUTED = ['CodedConcept == plain pydicom Dataset (falls through to Dataset.__eq__; outside the property)']
-STRATA = ['pair', 'pair_broken', 'triple', 'triple_row', 'store', 'store_file', 'from_ds', 'from_ds_bad', 'from_code']
+            'scheme_designator / scheme_version, __eq__ (code branch and the fall-through to Dataset.__eq__ for plain '
+            'datasets and non-code values, with Python\'s reflected-operand protocol), __ne__, __hash__, from_dataset '
+            '(type check, exactly-one check, required attributes, copy vs alias incl. class change of the original and the '
+            'depth of the copy for one nested sequence item), from_code; pydicom Code.__eq__/__ne__/__hash__ incl. SRT->SCT '
+            'normalisation; set/dict with several keys as hash-then-identity-then-eq lookup (first key kept, last value '
+            'wins); histories of API calls and user writes over a heap of datasets')
+NOT_EXECUTED = ['from_code(plain Dataset) (cls(*dataset) iterates data elements; modelled as "unsupported", not generated)',
+                'histories that address a nested sequence item directly (only reached through its parent)',
+                'sets of several malformed concepts (CPython probing order would be observable; single-key sets are driven)']
+STRATA = ['pair', 'pair_broken', 'triple', 'triple_row', 'store', 'store_file', 'from_ds', 'from_ds_bad', 'from_code',
+          'eq_any', 'set', 'set_broken', 'history']
 RULE = ('alphabet 3 schemes (SRT, SCT, DCM) x 6 values (SRT alias source, its SCT image, 16 chars, 17 chars, URN, URL) '
         'x 2 meanings x 2 versions x 2 representations = 144 codes; highdicom objects are produced by a random route '
         '(__init__, from_code, from_dataset with the value in each of the 3 attributes, file round trip). '
@@ -45,7 +52,15 @@ RULE = ('alphabet 3 schemes (SRT, SCT, DCM) x 6 values (SRT alias source, its SC
         'meaning-collapsed alphabet; '
         'store: values of length 0..70 around 16/17 in plain, urn-prefixed and ://-containing form, meanings of length '
         '0,1,63,64,65,100; from_ds: all 8 subsets of the code-value attributes x meaning/scheme/version present or not x copy x '
-        'class of the original, plus non-dataset arguments; pair_broken: concepts with value/meaning/scheme deleted afterwards. '
+        'class of the original, plus non-dataset arguments; pair_broken: concepts with value/meaning/scheme deleted afterwards; '
+        'eq_any: a code (any route) against None/str/int/tuple and against a plain pydicom Dataset with the same elements or one '
+        'of value/scheme/meaning/version changed, both operand orders, == and !=; set: 1-6 keys drawn with 65% bias to codes '
+        'related to an earlier key (reference-equal incl. alias, other meaning, other version) + 1-3 separately built probes: '
+        'identities kept by set(), membership of every key and probe, identities of the dict keys, d.get(); set_broken: a concept '
+        'with a deleted attribute as only key; history: 2-10 operations among CodedConcept(..), plain Dataset (any subset of '
+        'code-value attributes, optional nested item), from_dataset(copy/alias/non-dataset), from_code(Code/concept), writes to '
+        'CodeMeaning of an object or of its nested item, == of two objects: results of every call, all objects at the end, '
+        'which object owns which nested item. '
         'non-trivial = reference-equal pair of distinct specs / non-default attribute / accepted dataset; distinct by case hash')
 EXHAUSTIVE = {'quick': False, 'thorough': True}
 
@@ -195,6 +210,11 @@ def gen_cases(rng, tier):
     for c in [c for c in cases if c['kind'] == 'store']:
         if len(c['m']) <= 64 and rng.random() < (0.5 if tier == 'quick' else 0.3):
             cases.append(dict(c, kind='store_file', ts=rng.choice(['implicit', 'explicit'])))
+    # DICOM padding: trailing blanks of any attribute do not survive a file (leading / inner blanks do)
+    for v in ('abc ', 'abc  ', 'abcd ', ' ', '  ', ' abc', 'a b', 'B' * 15 + ' ', 'B' * 16 + ' ', 'C' * 17 + '  ', 'urn:a ',
+              'urn:ab  ', 'http://a b ', 'T-04000 '):
+        cases.append({'kind': 'store_file', 'v': v, 's': rng.choice(['DCM', 'DCM ', ' D ', 'SRT']), 'm': rng.choice(['m', 'm  ', '  ', ' m']),
+                      'ver': rng.choice([None, '', ' ', '1 ', ' 1']), 'ts': rng.choice(['implicit', 'explicit'])})
     # ---- from_dataset -------------------------------------------------------------------
     vals = {'CodeValue': 'abc', 'LongCodeValue': 'L' * 20, 'URNCodeValue': 'urn:oid:1.2'}
     for present in itertools.product([False, True], repeat=3):
@@ -213,7 +233,138 @@ def gen_cases(rng, tier):
     for m in ('Q' * 64, 'R' * 65):
         for isc in (False,):
             cases.append({'kind': 'from_code', 'c': _spec('DCM', '121', m, None, 'PD'), 'is_concept': isc})
+    cases += gen_eq_any(rng, tier, full) + gen_sets(rng, tier, full) + gen_histories(rng, tier, full)
     return cases
+
+
+FOREIGN = ['none', 'str', 'int', 'tuple4', 'tuple3']
+
+
+def gen_eq_any(rng, tier, full):
+    """a code against a plain pydicom Dataset (same / different content) and against non-code values"""
+    out = []
+    for _ in range(90 if tier == 'quick' else 1500):
+        a = _reroute(rng.choice(full), rng)
+        k = rng.choice([0, 1, 1, 2, 2])
+        c2 = dict(a, route='code')
+        attr = rng.choice(ATTRS)
+        if k >= 1 and a['route'] != 'code' and rng.random() < 0.7:
+            # the attribute the concept itself uses, so that equal content is frequent
+            attr = a['route'][3:] if a['route'].startswith('ds:') else (
+                'URNCodeValue' if (a['v'].startswith('urn') or '://' in a['v']) else
+                'LongCodeValue' if len(a['v']) > 16 else 'CodeValue')
+        if k == 2:
+            f = rng.choice(['m', 'ver', 'v', 's'])
+            c2[f] = {'m': 'Other meaning' if a['m'] == 'Breast' else 'Breast', 'ver': '2020' if a['ver'] is None else None,
+                     'v': rng.choice([v for v in VALUES if v != a['v']]), 's': rng.choice([x for x in SCHEMES if x != a['s']])}[f]
+        out.append({'kind': 'eq_any', 'a': a, 'k': k, 'foreign': rng.choice(FOREIGN), 'attr': attr, 'c2': c2})
+    return out
+
+
+def gen_sets(rng, tier, full):
+    """sets and dicts with several keys: which keys survive, membership, last write wins"""
+    out = []
+    by_key = {}
+    for i, sp in enumerate(full):
+        by_key.setdefault(ref_key(sp), []).append(i)
+
+    def draw(prev):
+        if prev and rng.random() < 0.65:
+            q = rng.choice(prev)
+            r = rng.random()
+            if r < 0.5:
+                return _reroute(full[rng.choice(by_key[ref_key(q)])], rng)       # reference-equal (alias included)
+            if r < 0.8:
+                return _reroute(dict(q, m=rng.choice(MEANINGS)), rng) if q['route'] != 'code' else dict(q, m=rng.choice(MEANINGS))
+            return dict(q, ver=rng.choice(VERSIONS))                             # same hash, maybe another version
+        return _reroute(rng.choice(full), rng)
+    for _ in range(160 if tier == 'quick' else 3000):
+        objs = []
+        for _ in range(rng.choice([1, 2, 3, 4, 5, 6])):
+            objs.append(draw(objs))
+        probes = [draw(objs) for _ in range(rng.choice([1, 2, 3]))]
+        out.append({'kind': 'set', 'objs': objs, 'probes': probes})
+    # keys whose concatenated hash string collides, and a second alias pair
+    out.append({'kind': 'set', 'objs': [_spec('SC', 'T1', 'x', None, 'HD'), _spec('SCT', '1', 'x', None, 'PD'),
+                                        _spec('SCT', '1', 'y', None, 'HD')], 'probes': [_spec('SC', 'T1', 'z', None, 'PD')]})
+    out.append({'kind': 'set', 'objs': [_spec('SRT', 'T-B7000', 'Thyroid', None, 'HD'), _spec('SCT', '111002', 'thyroid', None, 'PD')],
+                'probes': [_spec('SCT', '111002', 't', None, 'HD'), _spec('SRT', 'T-B7000', 't', None, 'PD')]})
+    # malformed stream: a concept that lost an attribute is still found by identity; == with it on the left raises
+    for _ in range(24 if tier == 'quick' else 200):
+        a = dict(_reroute(rng.choice(full), rng))
+        if a['route'] == 'code':
+            a['route'] = 'init'
+        a['broken'] = rng.randrange(3)
+        pr = dict(a, route=rng.choice(['init', 'code']))
+        pr.pop('broken')
+        out.append({'kind': 'set_broken', 'objs': [a], 'probes': [pr]})
+    return out
+
+
+def _wf(o):
+    return o['n'] == 1 and o['m'] and o['s']
+
+
+def gen_histories(rng, tier, full):
+    """sequences of API calls and user actions on a growing population of datasets (top-level addresses only)"""
+    out = []
+    for _ in range(150 if tier == 'quick' else 3000):
+        sim, ops = [], []          # sim[i]: dict(top, cc, n = number of code-value attributes, m, s, kid)
+        for _ in range(rng.choice([2, 3, 4, 6, 8, 10])):
+            tops = [i for i, o in enumerate(sim) if o['top']]
+            kind = rng.choice(['init', 'new', 'new', 'fd', 'fd', 'fd', 'fc', 'setm', 'setn', 'eq', 'eq'])
+            if kind in ('fd', 'setm', 'setn', 'eq') and not tops:
+                kind = 'new'
+            if kind == 'init':
+                sp = rng.choice(full)
+                m = sp['m'] if rng.random() < 0.9 else 'M' * 65
+                ops.append({'op': 'init', 'v': sp['v'], 's': sp['s'], 'm': m, 'ver': sp['ver']})
+                if len(m) <= 64:
+                    sim.append({'top': True, 'cc': True, 'n': 1, 'm': True, 's': True, 'kid': None})
+            elif kind == 'new':
+                sp = rng.choice(full)
+                pres = rng.choice([(1, 0, 0), (0, 1, 0), (0, 0, 1), (1, 0, 0), (0, 0, 1), (1, 1, 0), (0, 0, 0), (1, 1, 1)])
+                ds = {kw: (sp['v'] if p else None) for kw, p in zip(ATTRS, pres)}
+                has_m, has_s = rng.random() < 0.85, rng.random() < 0.85
+                nested = rng.random() < 0.5
+                ops.append({'op': 'new', 'ds': ds, 'm': sp['m'] if has_m else None, 's': sp['s'] if has_s else None,
+                            'ver': sp['ver'], 'nested': {'v': 'inner', 'm': 'inner meaning'} if nested else None})
+                sim.append({'top': True, 'cc': False, 'n': sum(pres), 'm': has_m, 's': has_s,
+                            'kid': len(sim) + 1 if nested else None})
+                if nested:
+                    sim.append({'top': False})
+            elif kind == 'fd':
+                if rng.random() < 0.06:
+                    ops.append({'op': 'fd', 'a': None, 'copy': rng.random() < 0.5})
+                    continue
+                a, copy = rng.choice(tops), rng.random() < 0.5
+                ops.append({'op': 'fd', 'a': a, 'copy': copy})
+                if _wf(sim[a]):
+                    if copy:
+                        kid = sim[a]['kid']
+                        sim.append(dict(sim[a], cc=True, kid=len(sim) + 1 if kid is not None else None))
+                        if kid is not None:
+                            sim.append({'top': False})
+                    else:
+                        sim[a]['cc'] = True
+            elif kind == 'fc':
+                ccs = [i for i in tops if sim[i]['cc']]
+                if ccs and rng.random() < 0.5:
+                    ops.append({'op': 'fc', 'a': rng.choice(ccs)})
+                else:
+                    sp = rng.choice(full)
+                    ops.append({'op': 'fc', 'c': dict(sp, route='code')})
+                    sim.append({'top': True, 'cc': True, 'n': 1, 'm': True, 's': True, 'kid': None})
+            elif kind == 'setm':
+                a = rng.choice(tops)
+                ops.append({'op': 'setm', 'a': a, 'm': rng.choice(['changed', 'Breast', ''])})
+                sim[a]['m'] = True
+            elif kind == 'setn':
+                ops.append({'op': 'setn', 'a': rng.choice(tops), 'm': rng.choice(['changed', 'inner meaning'])})
+            else:
+                ops.append({'op': 'eq', 'a': rng.choice(tops), 'b': rng.choice(tops)})
+        out.append({'kind': 'history', 'ops': ops})
+    return out
 
 
 # --------------------------------------------------------------------------------------------
@@ -376,7 +527,106 @@ def run_impl(c):
         if isinstance(r, Err):
             return r
         return [r is arg, _strs(_observe_concept(r))]
+    if k == 'eq_any':
+        o = catch(_make, c['a'])
+        if isinstance(o, Err):
+            return ['construct', o]
+        if c['k'] == 0:
+            sp = c['a']
+            x = {'none': None, 'str': sp['v'], 'int': 3, 'tuple4': (sp['v'], sp['s'], sp['m'], sp['ver']),
+                 'tuple3': (sp['v'], sp['s'], sp['m'])}[c['foreign']]
+        else:
+            x = _plain(c['attr'], c['c2'])
+        return [catch(lambda: o == x), catch(lambda: x == o), catch(lambda: o != x), catch(lambda: x != o)]
+    if k in ('set', 'set_broken'):
+        objs = [catch(_make, sp) for sp in c['objs']]
+        probes = [catch(_make, sp) for sp in c['probes']]
+        for x in objs + probes:
+            if isinstance(x, Err):
+                return ['construct', x]
+
+        def build():
+            st, d = set(), {}
+            for i, o in enumerate(objs):
+                st.add(o)
+                d[o] = i
+            return st, d
+        r = catch(build)
+        if isinstance(r, Err):
+            return r
+        st, d = r
+        ident = lambda coll: sorted(i for i, o in enumerate(objs) if any(o is e for e in coll))
+        return [ident(st), [catch(lambda: x in st) for x in objs + probes],
+                [next(i for i, o in enumerate(objs) if o is e) for e in d],
+                [catch(lambda: d.get(x)) for x in objs + probes]]
+    if k == 'history':
+        objs, results = [], []
+
+        def index(o):
+            for i, e in enumerate(objs):
+                if e is o:
+                    return i
+            objs.append(o)
+            if 'EquivalentCodeSequence' in o:
+                objs.append(o.EquivalentCodeSequence[0])
+            return index(o)
+        for op in c['ops']:
+            t = op['op']
+            if t == 'init':
+                r = catch(lambda: CodedConcept(op['v'], op['s'], op['m'], op['ver']))
+            elif t == 'fc':
+                arg = objs[op['a']] if 'a' in op else Code(op['c']['v'], op['c']['s'], op['c']['m'], op['c']['ver'])
+                r = catch(lambda: CodedConcept.from_code(arg))
+            elif t == 'fd':
+                arg = objs[op['a']] if op['a'] is not None else 'not a dataset'
+                r = catch(lambda: CodedConcept.from_dataset(arg, copy=op['copy']))
+            elif t == 'new':
+                r = _plain(None, None, op)
+            elif t == 'setm':
+                objs[op['a']].CodeMeaning = op['m']
+                r = objs[op['a']]
+            elif t == 'setn':
+                def setn():
+                    it = objs[op['a']].EquivalentCodeSequence[0]
+                    it.CodeMeaning = op['m']
+                    return it
+                r = catch(setn)
+            elif t == 'eq':
+                r = catch(lambda: objs[op['a']] == objs[op['b']])
+                results.append(r)
+                continue
+            results.append(r if isinstance(r, Err) else index(r))
+        final = [[type(o) is CodedConcept] + _strs([getattr(o, kw, None) for kw in ATTRS + ['CodeMeaning',
+                 'CodingSchemeDesignator', 'CodingSchemeVersion']]) for o in objs]
+        kids = [index(o.EquivalentCodeSequence[0]) if 'EquivalentCodeSequence' in o else None for o in list(objs)]
+        return [results, final, kids]
     raise ValueError(k)
+
+
+def _plain(attr, sp, op=None):
+    """a plain pydicom Dataset holding a code"""
+    from pydicom import Dataset
+    d = Dataset()
+    if op is None:
+        setattr(d, attr, sp['v'])
+        m, s_, ver, nested = sp['m'], sp['s'], sp['ver'], None
+    else:
+        for kw in ATTRS:
+            if op['ds'][kw] is not None:
+                setattr(d, kw, op['ds'][kw])
+        m, s_, ver, nested = op['m'], op['s'], op['ver'], op['nested']
+    if m is not None:
+        d.CodeMeaning = m
+    if s_ is not None:
+        d.CodingSchemeDesignator = s_
+    if ver is not None:
+        d.CodingSchemeVersion = ver
+    if nested is not None:
+        inner = Dataset()
+        inner.CodeValue = nested['v']
+        inner.CodeMeaning = nested['m']
+        d.EquivalentCodeSequence = [inner]
+    return d
 
 
 # --------------------------------------------------------------------------------------------
@@ -427,7 +677,8 @@ def coq_term(c):
         return (f'(run_triple_row {tbl} {_route(a)} {_code(a)} {_route(b)} {_code(b)} '
                 f"(all_codes {sl(SCHEMES)} {sl(VALUES)} \"Breast\" [{'; '.join(_ostr(v) for v in VERSIONS)}]))")
     if k in ('store', 'store_file'):
-        return f"(run_store {coq_string(c['v'])} {coq_string(c['s'])} {coq_string(c['m'])} {_ostr(c['ver'])})"
+        fn = 'run_store' if k == 'store' else 'run_store_file'
+        return f"({fn} {coq_string(c['v'])} {coq_string(c['s'])} {coq_string(c['m'])} {_ostr(c['ver'])})"
     if k in ('from_ds', 'from_ds_bad'):
         cp = 'true' if c['copy'] else 'false'
         if c['arg'] != 'dataset':
@@ -437,6 +688,44 @@ def coq_term(c):
                 f"{_ostr(c['m'])} {_ostr(c['s'])} {_ostr(c['ver'])} {'true' if c['orig_cc'] else 'false'})) {cp})")
     if k == 'from_code':
         return f"(run_from_code {'true' if c['is_concept'] else 'false'} {_code(c['c'])})"
+    if k == 'eq_any':
+        return (f"(run_eq_any {_table(c['a'])} {_route(c['a'])} {_code(c['a'])} {zlit(c['k'])} "
+                f"{_ATTR[c['attr']]} {_code(c['c2'])})")
+    if k in ('set', 'set_broken'):
+        rl = lambda sps: '[' + '; '.join(f'({_route(sp)}, {_code(sp)})' for sp in sps) + ']'
+        return f"(run_set {_table(*c['objs'], *c['probes'])} {rl(c['objs'])} {rl(c['probes'])})"
+    if k == 'history':
+        vs, terms = [], []
+        for op in c['ops']:
+            t = op['op']
+            if t == 'init':
+                vs.append({'v': op['v']})
+                o = f"OInit {coq_string(op['v'])} {coq_string(op['s'])} {coq_string(op['m'])} {_ostr(op['ver'])}"
+            elif t == 'fc':
+                if 'a' in op:
+                    o = f"OFromCode (RConcept {op['a']}%nat)"
+                else:
+                    vs.append(op['c'])
+                    o = f"OFromCode (RCode {_code(op['c'])})"
+            elif t == 'fd':
+                arg = 'NotDataset' if op['a'] is None else f"(Addr {op['a']}%nat)"
+                o = f"OFromDataset {arg} {'true' if op['copy'] else 'false'}"
+            elif t == 'new':
+                d = op['ds']
+                vs += [{'v': v} for v in d.values() if v is not None]
+                ds = lambda cv, lcv, urn, m, s_, ver: (f"(DS {_ostr(cv)} {_ostr(lcv)} {_ostr(urn)} {_ostr(m)} "
+                                                        f"{_ostr(s_)} {_ostr(ver)} false)")
+                n = op['nested']
+                o = (f"ONewDataset {ds(d['CodeValue'], d['LongCodeValue'], d['URNCodeValue'], op['m'], op['s'], op['ver'])} "
+                     + ('None' if n is None else f"(Some {ds(n['v'], None, None, n['m'], None, None)})"))
+            elif t == 'setm':
+                o = f"OSetMeaning {op['a']}%nat {coq_string(op['m'])}"
+            elif t == 'setn':
+                o = f"OSetNestedMeaning {op['a']}%nat {coq_string(op['m'])}"
+            else:
+                o = f"OEq {op['a']}%nat {op['b']}%nat"
+            terms.append(o)
+        return f"(run_history {_table(*vs)} [{'; '.join(terms)}])"
     raise ValueError(k)
 
 
@@ -544,6 +833,10 @@ def oracle(c, out):
             return None if out == Err('ValueError') else f'meaning of {len(c["m"])} characters accepted: {out}'
         if isinstance(out, Err):
             return f'valid code refused: {out}'
+        if k == 'store_file':
+            # in a file trailing blanks are padding (PS3.5 6.2): not significant, removed by the reader
+            rs = lambda x: None if x is None else x.rstrip(' ')
+            return _check_concept(out, rs(c['v']), rs(c['s']), rs(c['m']), rs(c['ver']), k, _expected_attr(c['v']))
         return _check_concept(out, c['v'], c['s'], c['m'], c['ver'], k, _expected_attr(c['v']))
     if k in ('from_ds', 'from_ds_bad'):
         if c['arg'] != 'dataset':
@@ -586,6 +879,79 @@ def oracle(c, out):
         if same != c['is_concept']:
             return f'from_code identity: result is argument = {same}, argument is a concept = {c["is_concept"]}'
         return _check_concept(obs, sp['v'], sp['s'], sp['m'], sp['ver'], 'from_code', _expected_attr(sp['v']))
+    if k == 'eq_any':
+        if out and out[0] == 'construct':
+            return f'construction of a valid code failed: {out[1]}'
+        eq_ox, eq_xo, ne_ox, ne_xo = out
+        if c['a']['route'] == 'code':
+            # pydicom Code against a non-code: pydicom raises AttributeError (not highdicom code, not judged)
+            return None if eq_ox == eq_xo else f'Code vs non-code: {out}'
+        if any(isinstance(x, Err) for x in out):
+            return f'comparison of a coded concept with a non-code value raised: {out}'
+        if eq_ox != eq_xo or ne_ox != (not eq_ox) or ne_xo != (not eq_xo):
+            return f'== / != against a non-code value inconsistent: {out}'
+        if c['k'] == 0:
+            return None if eq_ox is False else f'a coded concept equals the non-code value {c["foreign"]}'
+        a, b = c['a'], c['c2']
+        differs = any(a[f] != b[f] for f in ('v', 's', 'm', 'ver'))
+        if eq_ox and differs:
+            return 'a coded concept equals a plain dataset with different content'
+        stored = a['route'][3:] if a['route'].startswith('ds:') else _expected_attr(a['v'])
+        if not differs and stored is not None and stored == c['attr'] and not eq_ox:
+            return 'a coded concept differs from the plain dataset holding the same elements'
+        return None
+    if k == 'set':
+        if out and out[0] == 'construct':
+            return f'construction of a valid code failed: {out[1]}'
+        if isinstance(out, Err):
+            return f'building a set / dict of well-formed codes raised {out}'
+        kept, member, dkeys, got = out
+        objs, allp = c['objs'], c['objs'] + c['probes']
+        same = lambda x, y: x['s'] + x['v'] == y['s'] + y['v'] and ref_key(x) == ref_key(y)
+        want_kept = [i for i, o in enumerate(objs) if not any(same(objs[j], o) for j in range(i))]
+        if kept != want_kept or dkeys != want_kept:
+            return f'set keeps {kept}, dict keys {dkeys}; one representative per class would be {want_kept}'
+        for x, mem, g in zip(allp, member, got):
+            hits = [i for i, o in enumerate(objs) if same(o, x)]
+            if isinstance(mem, Err) or isinstance(g, Err):
+                return f'lookup of a well-formed code raised: {mem} {g}'
+            if mem != bool(hits):
+                return f'membership {mem} but stored codes with the same scheme, value and version: {hits}'
+            if g != (hits[-1] if hits else None):
+                return f'dict lookup gave {g}, last write to an equal key was {hits[-1] if hits else None}'
+        return None
+    if k == 'set_broken':
+        if isinstance(out, Err):
+            return None if out.kind in ('AttributeError', 'TypeError') else f'unexpected {out}'
+        for x in out[1] + out[3]:
+            if isinstance(x, Err) and x.kind not in ('AttributeError', 'TypeError'):
+                return f'unexpected outcome {x} on a concept with deleted attributes'
+        return None
+    if k == 'history':
+        results, final, kids = out
+        # every object of class CodedConcept is exactly one code (the invariant of the API)
+        for i, (cc, cv, lcv, urn, m, s_, ver) in enumerate(final):
+            if cc and (sum(x is not None for x in (cv, lcv, urn)) != 1 or m is None or s_ is None):
+                return f'object {i} is a CodedConcept but not exactly one code: {final[i]}'
+        owners = {}
+        for a, kk in enumerate(kids):
+            if kk is not None:
+                if kk in owners:
+                    return f'objects {owners[kk]} and {a} share the nested item {kk} (copy is not deep)'
+                owners[kk] = a
+        n = 0
+        for op, r in zip(c['ops'], results):
+            if op['op'] == 'init':
+                if (len(op['m']) > 64) != (r == Err('ValueError')):
+                    return f'CodedConcept(meaning of {len(op["m"])} characters) gave {r}'
+            if op['op'] == 'fd':
+                if op['a'] is None and r != Err('TypeError'):
+                    return f'from_dataset(non-dataset) gave {r}'
+                if op['a'] is not None and not isinstance(r, Err) and (r == op['a']) == op['copy']:
+                    return f'from_dataset(copy={op["copy"]}) of object {op["a"]} returned object {r}'
+                if isinstance(r, Err) and r.kind not in ('AttributeError', 'TypeError'):
+                    return f'from_dataset raised {r}'
+        return None
     return f'unknown kind {k}'
 
 
@@ -603,6 +969,12 @@ def nontrivial(c, out):
         return True
     if k == 'from_code':
         return not isinstance(out, Err)
+    if k == 'eq_any':
+        return out[0] is True or c['k'] != 1
+    if k == 'set':
+        return not isinstance(out, Err) and len(out[0]) < len(c['objs'])
+    if k == 'history':
+        return any(op['op'] == 'fd' and not isinstance(r, Err) for op, r in zip(c['ops'], out[0]))
     return True
 
 
